@@ -46,7 +46,8 @@ class C08(F.Check):
         "unit pairs are an enumerated grid (generated rational scalings of Meters plus library pairs); rep pairs of equal signedness",
         "k1, k2 (input unit / common unit) come from an independent gcd-of-rationals model, not from Au",
         "only pairs whose implicit conversion to the common type the policy permits compile; others are dropped and counted",
-        "floating reps: not claimed by the solver (formula-equivalence only; see DESIGN.md) - this check covers integral reps",
+        "floating reps: decided as formula equivalence: comparison / + / - equal the raw IEEE operation on the operands scaled to the common unit, and each scaling is a single "
+        "multiplication by the exact integer k from the model; the 'few ulp' consequence is a paper argument on that formula (two roundings per operand path), not a solver result",
         "% is compared with the raw operator on the exactly scaled operands (same trap condition: divisor 0, INT_MIN % -1)",
         "<=> kernels are lowered at -std=c++20 (clang only)",
     ]
@@ -93,6 +94,33 @@ class C08(F.Check):
                     ks.append(k)
                     names[nm] = k.name
                 self.inst.append((r1, r2, cr, pr, k1, k2, names, tag, key))
+        # floating reps: formula equivalence (DESIGN.md C08): op(q1, q2) == raw op on (x (*) k1, y (*) k2), k exact integers
+        self.finst = []
+        fpairs = [("double", "double")] if self.tier == "quick" else [("double", "double"), ("float", "float"), ("float", "double")]
+        for ui, (u1, u2, k1, k2, lab) in enumerate(upairs):
+            k1, k2 = int(k1), int(k2)
+            if self.tier == "quick" and ui % 2:
+                continue
+            for r1, r2 in fpairs:
+                cr = common_type(r1, r2)
+                tag = "f%d_%s_%s" % (ui, r1, r2)
+                key = {"U1|U2": lab, "k1": k1, "k2": k2, "R1": r1, "R2": r2, "common_rep": cr}
+                cu = "CommonUnitT<%s, %s>" % (u1, u2)
+                a = "make_quantity<%s>(x)" % u1
+                b = "make_quantity<%s>(y)" % u2
+                args = [(r1, "x"), (r2, "y")]
+                names = {}
+                for nm, body, rt, ar in (
+                        ("c1", "return rep_cast<%s>(%s).in(%s{});" % (cr, a, cu), cr, [(r1, "x")]),
+                        ("c2", "return rep_cast<%s>(%s).in(%s{});" % (cr, b, cu), cr, [(r2, "y")]),
+                        ("flt", "return %s < %s;" % (a, b), "bool", args), ("feq", "return %s == %s;" % (a, b), "bool", args),
+                        ("fle", "return %s <= %s;" % (a, b), "bool", args),
+                        ("fadd", "auto r = %s + %s; return r.in(decltype(r)::unit);" % (a, b), cr, args),
+                        ("fsub", "auto r = %s - %s; return r.in(decltype(r)::unit);" % (a, b), cr, args)):
+                    k = F.Kernel("c08_%s_%s" % (nm, tag), rt, ar, body, key=key, family="float_" + nm)
+                    ks.append(k)
+                    names[nm] = k.name
+                self.finst.append((r1, r2, cr, k1, k2, names, tag, key))
         return ks
 
     def obligations(self, K):
@@ -169,6 +197,47 @@ class C08(F.Check):
             for nm in dropped:
                 self.extra_cov.setdefault("dropped_kernels", {}).setdefault(nm, 0)
                 self.extra_cov["dropped_kernels"][nm] += 1
+        # ---- floating reps
+        from fractions import Fraction as Fr
+        from .. import fpeval
+        for r1, r2, cr, k1, k2, names, tag, key in self.finst:
+            if any(K[n].kernel.dropped for n in names.values()):
+                self.extra_cov["float_instances_dropped"] = self.extra_cov.get("float_instances_dropped", 0) + 1
+                continue
+            fc = F.FMT_OF[cr]
+            wc = T.fmt_width(fc)
+            w1, w2 = T.fmt_width(F.FMT_OF[r1]), T.fmt_width(F.FMT_OF[r2])
+            for ci, (cn, rr, kk, ww) in enumerate((("c1", r1, k1, w1), ("c2", r2, k2, w2))):
+                kconst = T.const_bv(fpeval.from_fraction(fc, Fr(kk)), wc)
+                exact_k = fpeval.to_fraction(fc, kconst.attr) == Fr(kk)
+
+                def fnc(K, x, cn=cn, names=names, rr=rr, fc=fc, kconst=kconst, kk=kk):
+                    e = K[names[cn]](x)
+                    xc = T.fp_cvt(F.FMT_OF[rr], fc, x)
+                    exp = xc if kk == 1 else T.fp_bin("mul", fc, xc, kconst)
+                    same = T.or_(T.eq(e.ret, exp), T.and_(T.fp_isnan(fc, e.ret), T.fp_isnan(fc, exp)))
+                    return T.TRUE, T.and_(T.not_(e.ub), same)
+                if exact_k:
+                    obs.append(F.Ob("fconv_%s:%s" % (cn, tag), [("x", T.BV(ww))], fnc, key=key, kernels=[names[cn]], routes=F.FP_ROUTES,
+                                    note="scaling to the common unit is one IEEE multiplication by the exact integer k (model), after widening to the common rep"))
+            for nm, pred in (("flt", "olt"), ("feq", "oeq"), ("fle", "ole")):
+                def fnp(K, x, y, nm=nm, pred=pred, names=names, fc=fc):
+                    e = K[names[nm]](x, y)
+                    a_, b_ = K[names["c1"]](x), K[names["c2"]](y)
+                    return T.TRUE, T.and_(T.not_(e.ub), T.eq(e.ret, T.fp_cmp(pred, fc, a_.ret, b_.ret)))
+                obs.append(F.Ob("%s:%s" % (nm, tag), [("x", T.BV(w1)), ("y", T.BV(w2))], fnp, key=key, routes=F.FP_ROUTES,
+                                kernels=[names[nm], names["c1"], names["c2"]],
+                                note="comparison == raw comparison of the operands scaled to the common unit"))
+            for nm, op in (("fadd", "add"), ("fsub", "sub")):
+                def fna(K, x, y, nm=nm, op=op, names=names, fc=fc):
+                    e = K[names[nm]](x, y)
+                    a_, b_ = K[names["c1"]](x), K[names["c2"]](y)
+                    exp = T.fp_bin(op, fc, a_.ret, b_.ret)
+                    same = T.or_(T.eq(e.ret, exp), T.and_(T.fp_isnan(fc, e.ret), T.fp_isnan(fc, exp)))
+                    return T.TRUE, T.and_(T.not_(e.ub), same)
+                obs.append(F.Ob("%s:%s" % (nm, tag), [("x", T.BV(w1)), ("y", T.BV(w2))], fna, key=key, routes=F.FP_ROUTES,
+                                kernels=[names[nm], names["c1"], names["c2"]],
+                                note="sum/difference == one IEEE operation on the operands scaled to the common unit"))
         return obs
 
 
